@@ -145,6 +145,7 @@ fn norm_path(p: &str) -> String {
         .join(".")
         .replace("Some.", "")
         .replace(".Some", "")
+        .replace(".unix_nanos", "")
 }
 
 fn panic_msg(p: Box<dyn std::any::Any + Send>) -> String {
@@ -395,6 +396,7 @@ async fn db_folder_rows(acc: &mut Acc) {
         };
         let got = vals::header_proj(back.header(), back.shared_access());
         if let Some((np, p, a, b)) = first_diff(&want, &got, &mut vec![]) {
+            let np = np.split('.').next().unwrap_or("").to_string();
             acc.fail(&format!("roundtrip_mismatch:{}", np), format!("Vault header -> FolderRow -> FolderRecord -> Vault differs at {}", np), wit(json!({"path": p, "expected": clip(&a), "got": clip(&b)})));
         }
     }
